@@ -24,8 +24,8 @@ The shape token (props/_ssb_common.shape_token) is the first feature of a fixed 
 cross-jump-to-..., case-without-switch, jump-targets-case-op, switch-without-case, ..., backward-jump, ..., forward-jump).
 
 Interpretation choices: dungeon-mode integers and the DungeonModeConstants handed to the decompiler denote the same parameter
-(`flag_SetDungeonMode`, `Case` under `SwitchDungeonMode`); the reference semantics refuses `JumpCommon`/`Destroy` written as plain
-operations - that is a limitation of spec/sem.py, such texts are only judged through the compiler.
+(`flag_SetDungeonMode`, `Case` under `SwitchDungeonMode`); `JumpCommon(n);` / `Destroy();` are plain operations that end the flow
+(spec/sem.FLOW_ENDING_PLAIN_OPS), like the machine model treats the compiled ops.
 """
 from __future__ import annotations
 
@@ -199,10 +199,6 @@ def _sem_check(es: K.EsResult, text: str, n_in, e_in, shape: str, stats: dict) -
     try:
         nodes, entries, headers = _sem.sem(prog, perf_var=K.PPL)
     except _sem.StaticError as e:
-        if str(e) in ("operation JumpCommon is reserved for control flow syntax", "operation Destroy is reserved for control flow syntax"):
-            # limitation of the reference semantics, not of the text: JumpCommon / Destroy have no other spelling than a plain operation
-            stats["sem_skipped"] = 1
-            return []
         return [(CONTRACT_SEM, f"text-semantics:statically-invalid[{K.normalise_message(str(e))}]:{shape}", str(e), text)]
     stats["sem_checked"] = 1
     nodes = K.dmc_normalise(nodes)
